@@ -44,11 +44,14 @@ const (
 	kToken           = "token-enrollment"
 	kAuth            = "authenticate"
 	kAuthUnknown     = "authenticate-unregistered"
+	// a registered node's (replayed) signed request, presented with a self-signed
+	// certificate: passes the nonce check, must fail the certificate check
+	kAuthReplay = "authenticate-replayed-request-self-signed"
 )
 
 var sockSeq int64
 
-var kinds = []string{kFetchAuthorized, kFetchUnknown, kToken, kAuth, kAuthUnknown}
+var kinds = []string{kFetchAuthorized, kFetchUnknown, kToken, kAuth, kAuthUnknown, kAuthReplay}
 
 type scenario struct {
 	Clients []string `json:"clients"`
@@ -218,6 +221,26 @@ func (w *world) authClient(conn net.Conn, i int, registered bool) string {
 	return "handshake-completed"
 }
 
+// replayClient presents node i's genuine signed request with a self-signed certificate.
+func (w *world) replayClient(conn net.Conn, i int) string {
+	n := w.auth[i]
+	nonce := harness.Bytes(fmt.Sprintf("c15-replay-nonce-%d", i), 32)
+	c := &harness.AuthClient{Request: &types.GenerateServerCertificatesRequest{CertificatePublicKeyPkix: n.K.Pkix, Nonce: nonce, NonceSignature: n.K.Sign(nonce)}, ExtraProtos: extras(i)}
+	outsider := w.unk[i]
+	chain := [][]byte{harness.SelfSignedCertWithSKI(outsider, n.K.Pkix)}
+	tc := tls.Client(conn, &tls.Config{MinVersion: tls.VersionTLS13, InsecureSkipVerify: true, NextProtos: c.NextProtos(),
+		GetClientCertificate: func(*tls.CertificateRequestInfo) (*tls.Certificate, error) {
+			return &tls.Certificate{Certificate: chain, PrivateKey: outsider.Priv}, nil
+		}})
+	tc.SetDeadline(time.Now().Add(60 * time.Second))
+	if err := tc.Handshake(); err != nil {
+		return "handshake-failed"
+	}
+	var b [1]byte
+	tc.Read(b[:])
+	return "handshake-completed"
+}
+
 // body runs the scenario: one listener, one handler thread per client.
 // It returns after spawning; `wait` joins the unmanaged client goroutines.
 func (w *world) body(sc scenario) (*obs, func(), *harness.MemStore) {
@@ -293,6 +316,8 @@ func (w *world) body(sc scenario) (*obs, func(), *harness.MemStore) {
 				res = w.authClient(conns[i], i, true)
 			case kAuthUnknown:
 				res = w.authClient(conns[i], i, false)
+			case kAuthReplay:
+				res = w.replayClient(conns[i], i)
 			}
 			o.mu.Lock()
 			o.client[i] = res
@@ -453,7 +478,7 @@ func scenarios(c *engine.Ctx) []scenario {
 	for _, sh := range shapes {
 		for a := 0; a < len(kinds); a++ {
 			for b := a; b < len(kinds); b++ {
-				if !c.Thorough() && kinds[a] != kToken && kinds[b] != kToken && kinds[a] != kAuth && kinds[b] != kAuth {
+				if !c.Thorough() && kinds[a] != kToken && kinds[b] != kToken && kinds[a] != kAuth && kinds[b] != kAuth && kinds[b] != kAuthReplay {
 					continue
 				}
 				if sh[0] >= 3 && !((kinds[a] == kToken && kinds[b] == kToken) || (kinds[a] == kToken && kinds[b] == kAuth)) {
@@ -572,7 +597,7 @@ func init() {
 	engine.Register(&engine.CheckDef{
 		ID:    "C15",
 		Level: "exploration",
-		Rule: "one real InterceptingListener over real (unix-socket) connections; 2 (thorough also 3) handler threads each running one Accept for clients of kinds {fetch by an authorized node, fetch by an unknown node, token enrollment carrying its own state, authentication with its own client state and extra protocols, authentication by an unregistered key}, for application option slices of length 0/1/2 with spare capacity 0/1/4 and of every length 3..9 with exact capacity; every schedule with at most 2 preemptions (thorough: 3 for pairs on three representative option shapes) over the scheduling points {every storage call, entry/exit of the fetch and certificate functions, base Accept}; oracle: each connection's (server result, reported state and protocols, client-side answer, created record's state) equals its outcome when handled alone; " +
+		Rule: "one real InterceptingListener over real (unix-socket) connections; 2 (thorough also 3) handler threads each running one Accept for clients of kinds {fetch by an authorized node, fetch by an unknown node, token enrollment carrying its own state, authentication with its own client state and extra protocols, authentication by an unregistered key, a registered node's replayed request presented with a self-signed certificate}, for application option slices of length 0/1/2 with spare capacity 0/1/4 and of every length 3..9 with exact capacity; every schedule with at most 2 preemptions (thorough: 3 for pairs on three representative option shapes) over the scheduling points {every storage call, entry/exit of the fetch and certificate functions, base Accept}; oracle: each connection's (server result, reported state and protocols, client-side answer, created record's state) equals its outcome when handled alone; " +
 			"evaluations = schedules executed; distinct_nontrivial = scenarios explored",
 		Assumptions: []string{"code between two scheduling points of one handshake runs atomically w.r.t. the other handshakes (scheduling points are where shared state can be touched: storage and the shared option slice around the function calls); unsynchronised accesses inside those blocks are the -race companion's job", "clients are storage-independent (distinct keys and tokens), so the sequential outcome of each is order-independent"},
 		Shards:      func(c *engine.Ctx) int { return 16 },
